@@ -87,7 +87,7 @@ func (m *Match) Bytes() []byte {
 	if m.start < 0 || m.end > len(m.haystack) || m.start > m.end {
 		return nil
 	}
-	return m.haystack[m.start:m.end]
+	return m.haystack[m.start:m.end:m.end]
 }
 
 // String returns the matched text as a string.
@@ -169,7 +169,7 @@ func (m *MatchWithCaptures) Bytes() []byte {
 	if len(m.captures) > 0 && m.captures[0] != nil {
 		start, end := m.captures[0][0], m.captures[0][1]
 		if start >= 0 && end >= start && end <= len(m.haystack) {
-			return m.haystack[start:end]
+			return m.haystack[start:end:end]
 		}
 	}
 	return nil
@@ -196,7 +196,7 @@ func (m *MatchWithCaptures) Group(index int) []byte {
 	}
 	start, end := m.captures[index][0], m.captures[index][1]
 	if start >= 0 && end >= start && end <= len(m.haystack) {
-		return m.haystack[start:end]
+		return m.haystack[start:end:end]
 	}
 	return nil
 }
